@@ -410,7 +410,7 @@ func VerifC18MapIndexReps() {
 	case 3:
 		idx = nil
 	case 4:
-		idx = []string{"1", "true", "2.5", "k", "zz"}[nd.Choice(5)]
+		idx = []string{"1", "true", "2.5", "k", "zz", "size", "first", "last"}[nd.Choice(8)]
 	case 5:
 		idx = c18Drop{"k"}
 	case 6:
@@ -456,4 +456,33 @@ func VerifC18DropTruth() {
 	nd.Assert(e1 == nil && e2 == nil && e3 == nil, "drop-truth-no-error")
 	nd.Assert(o1 == o2 && o1 == o3, "drop-as-true-as-its-value")
 	nd.Reach("C18.droptruth")
+}
+
+// VerifC18FloatArrays: floats inside typed containers print, join and loop exactly as the same
+// floats inside a generic array (whole numbers of a million and more included).
+func VerifC18FloatArrays() {
+	vals := []float64{2500000, 0.5, 1000000, -3, 123456789}
+	x, y := vals[nd.Choice(5)], vals[nd.Choice(5)]
+	canon := []any{x, y}
+	var other any
+	switch nd.Choice(5) {
+	case 0:
+		other = []float64{x, y}
+	case 1:
+		other = [2]float64{x, y}
+	case 2:
+		p := []float64{x, y}
+		other = &p
+	case 3:
+		other = []any{c18Drop{x}, &y}
+	case 4:
+		canon = []any{float32(x), float32(y)}
+		other = []float32{float32(x), float32(y)}
+	}
+	t := []string{"{{ a }}", "{% for v in a %}{{ v }};{% endfor %}", "{{ a[0] }}|{{ a.last }}", "{{ a | first }}|{{ a | reverse | first }}"}[nd.Choice(4)]
+	o1, e1 := vRender(t, Bindings{"a": canon})
+	o2, e2 := vRender(t, Bindings{"a": other})
+	nd.Assert(e1 == nil && e2 == nil, "float-array-no-error")
+	nd.Assert(o1 == o2, "float-array-rep-same-output")
+	nd.Reach("C18.floatarrays")
 }
